@@ -1,10 +1,49 @@
 import StepupModel.Proto
-/-! Driver requests of C07 (`c07 <op> ...`). -/
-open StepupModel StepupModel.Proto
+import StepupModel.Drv.C06
+/-! Driver requests of C07 (`c07 <op> ...`): `Workflow.delete_detached` and
+`revert_optional_steps` + `delete_detached` of the kernel model on an encoded database state (see
+`Drv/C06.lean` for the encoding).  Answer: the surviving keys with the presence of a step hash,
+and the queue, or `err <kind>`. -/
+open StepupModel StepupModel.Proto StepupModel.K StepupModel.B
 
 namespace StepupModel.Drv.C07
 
+def encKey (k : Key) : String := k.kind.name ++ "." ++ hex k.label
+
+def encResult (s : KState) : String :=
+  let keys := (s.nodes.map fun n => encKey n.key ++ (if n.key.kind = .step then (if n.shash.isSome then "+" else "-") else
+      if n.key.kind = .file then ":" ++ n.fstate.name else "")).mergeSort fun a b => decide (a ≤ b)
+  let queue := (s.toBeDeleted.map fun e => hex e.1 ++ "=" ++ Drv.C06.optNatStr e.2).mergeSort fun a b => decide (a ≤ b)
+  (if keys.isEmpty then "." else ";".intercalate keys) ++ " " ++ (if queue.isEmpty then "." else ",".intercalate queue)
+
+def parseNeedTok : String → Option Need
+  | "OPTIONAL" => some .optional | "DEFAULT" => some .default | "TARGET" => some .target | "PLAN" => some .plan
+  | _ => none
+
+/-- `optional` lists the keys of the attached steps whose `_implied_need` is OPTIONAL, `notPending`
+those whose state is not PENDING. -/
+def markSteps (s : KState) (optional notPending : List Key) : KState :=
+  { s with nodes := s.nodes.map fun n =>
+      if n.key.kind = .step then
+        { n with impliedNeed := if optional.contains n.key then .optional else .default,
+                 sstate := if notPending.contains n.key then .succeeded else .pending }
+      else n }
+
+def parseKeys (tok : String) : Option (List Key) :=
+  if tok = "." then some [] else (tok.splitOn ";").mapM Drv.C06.parseKeyDot
+
 def handle : List String → Option String
+  | ["dd", nodes, deps] => do
+    let s ← Drv.C06.parseState nodes deps
+    pure (match s.deleteDetached with
+      | .ok s' => "ok " ++ encResult s'
+      | .error e => "err " ++ e.name)
+  | ["cleanup", nodes, deps, optional, notPending] => do
+    let s ← Drv.C06.parseState nodes deps
+    let s := markSteps s (← parseKeys optional) (← parseKeys notPending)
+    pure (match s.revertOptional >>= fun s1 => s1.deleteDetached with
+      | .ok s' => "ok " ++ encResult s'
+      | .error e => "err " ++ e.name)
   | _ => none
 
 end StepupModel.Drv.C07
